@@ -33,6 +33,9 @@ def find_page(e):
     def walk(x):
         if not isinstance(x, E) or res:
             return
+        if x.op == "rem" and isinstance(x.args[1], E) and not x.args[1].is_const():
+            res.append(x.args[1])                  # x % P: the other spelling of the page arithmetic
+            return
         if x.op == "not" and x.args[0].op in ("sub", "add"):
             a = x.args[0]
             for cand in a.args:
@@ -103,6 +106,12 @@ def linearise(e, P, out, coef, w):
                         out.slacks[key] = out.slacks.get(key, 0) - coef
                     return
     # x % c and x.next_multiple_of(c) with constant c: slacks in [0, c-1] (expressed against the page slack range when c <= PAGE_MIN)
+    if e.op == "rem" and P is not None and e.args[1] == P and e.args[0].op == "sub" and e.args[0].args[0] == P and \
+            e.args[0].args[1].op == "rem" and e.args[0].args[1].args[1] == P:
+        # (P - y % P) % P = align_up(y) - y: the slack of rounding y up (how next_multiple_of is modelled)
+        key = ("up", _nf(e.args[0].args[1].args[0], w))
+        out.slacks[key] = out.slacks.get(key, 0) + coef
+        return
     if e.op == "rem" and P is not None and e.args[1] == P:
         # x % P = x - align_down(x): the same slack as the align_down of x, with the opposite sign
         key = ("down", _nf(e.args[0], w))
